@@ -102,6 +102,11 @@ def one_case(kern, X1, X2, y, exact):
     K12, K22, K21 = r["K12"], r["K22"], r["K21"]
     got = dict(symm=r["symm"], gen=r["gen"], mm12=r["mm12"], mm2=r["mm2"], gram=K12, diag=r["diag"])
     want = dict(symm=K22, gen=K12, mm12=K12 @ y, mm2=K22 @ y, gram=K21.T, diag=np.diag(K22))
+    # the products again OUTSIDE jit (concrete coordinates: any value-dependent shortcut of the eager path shows here)
+    got["mm12 (eager)"] = np.asarray(kern.matmul(X1, X2, jnp.asarray(y)))
+    got["mm2 (eager)"] = np.asarray(kern.matmul(X2, y=jnp.asarray(y)))
+    want["mm12 (eager)"] = want["mm12"]
+    want["mm2 (eager)"] = want["mm2"]
     c = y.shape[1] if y.ndim == 2 else 1
     y2 = y.reshape(n2, c)
     expr = (f"run (mk {P.shape[0]} {cmat(h)} {cmat(P)} "
